@@ -115,6 +115,9 @@ type Sched struct {
 	// OnStep, when set, is called after every executed request (for probes).
 	OnStep func(t *Task, r *Req)
 
+	// Stepping is the task whose request is being executed (scheduler side).
+	Stepping *Task
+
 	mapCalls map[string]int
 	closed   bool
 }
@@ -202,10 +205,14 @@ func Activate(s *Sched) *Sched {
 // InTask reports whether the caller runs as a scheduled task.
 func InTask() bool { return getCurTask() != nil }
 
-// CurrentTaskID is used by sim packages for logging (-1 in direct mode).
+// CurrentTaskID is used by sim packages for logging (-1 in direct mode).  On
+// the scheduler goroutine, inside Req.Do, it is the task being stepped.
 func CurrentTaskID() int {
 	if t := getCurTask(); t != nil {
 		return t.ID
+	}
+	if s := getCurSched(); s != nil && s.Stepping != nil {
+		return s.Stepping.ID
 	}
 	return -1
 }
@@ -423,6 +430,8 @@ func (s *Sched) Step(t *Task) {
 	}
 	activeScheds.Add(1)
 	defer activeScheds.Add(-1)
+	s.Stepping = t
+	defer func() { s.Stepping = nil }()
 	for {
 		r := getReq(t)
 		var resp *Resp
@@ -524,6 +533,16 @@ func (s *Sched) AwaitExt(t *Task) {
 // returned.  It parks the task until the scheduler picks it again.
 func ExtEnd(t *Task, site string) {
 	t.call(&Req{Kind: "ext-end", Site: site, extEnd: true})
+}
+
+// FinishOn reports that an adopted external task (the jsonrpc2 read loop) is
+// about to return; it does not wait.
+func FinishOn(t *Task) {
+	setReq(t, &Req{Kind: "done", fin: true})
+	raceRelease(unsafe.Pointer(&t.syncVar))
+	raceDisable()
+	t.s.events <- t
+	raceEnable()
 }
 
 // CurrentTask returns the handle of the running task (nil in direct mode).
